@@ -129,20 +129,21 @@ class Rewriter:
             new = 'match %s { Some(%s) => Some(%s), None => None }' % (recv, pat, cbody)
             body = body[:rs] + new + body[bend + 1:]
 
-    def r6_question(self, body):
-        """E?  =>  match E { Ok(v) => v, Err(e) => return Err(From::from(e)) }   (rustc's desugaring)"""
+    def r6_question(self, body, option=False):
+        """E?  =>  match E { Ok(v) => v, Err(e) => return Err(From::from(e)) }   (rustc's desugaring;
+        for Option: match E { Some(v) => v, None => return None })"""
         while True:
-            m = mask(body)
-            mt = re.search(r'\?\s*;', m)
-            if not mt:
-                if '?' in m.replace('?Sized', ''):
-                    raise ExtractError('R6: unsupported use of `?` in %s' % self.fname)
+            m = mask(body).replace('?Sized', ' Sized')
+            q = m.find('?')
+            if q < 0:
                 return body
-            q = mt.start()
             rs = receiver_start(m, q)
             recv = body[rs:q].rstrip()
             self.note('R6', body[rs:q + 1])
-            new = 'match %s { Ok(v__) => v__, Err(e__) => return Err(From::from(e__)) }' % recv
+            if option:
+                new = '(match %s { Some(v__) => v__, None => return None })' % recv
+            else:
+                new = '(match %s { Ok(v__) => v__, Err(e__) => return Err(From::from(e__)) })' % recv
             body = body[:rs] + new + body[q + 1:]
 
 
@@ -238,14 +239,16 @@ def apply_insertions(body, loops, hints, fname, notes):
         ins.append((loop_body_open(m, pos, kw), '\n' + text.rstrip() + '\n'))
     for alts, text in hints:
         placed = False
-        for where, rx, k in alts:
+        for where, rx, k, every in alts:
             occ = [mt for mt in re.finditer(rx, m)]
             if len(occ) >= k:
                 p = occ[k - 1].start()
                 off = stmt_start(m, p) if where == 'before' else stmt_end(m, p)
-                ins.append((off, '\n' + text.rstrip() + '\n'))
+                if not any(o == off and t.strip() == text.strip() for o, t in ins):
+                    ins.append((off, '\n' + text.rstrip() + '\n'))
                 placed = True
-                break
+                if not every:
+                    break
         if not placed:
             notes.append({'function': fname, 'lost_anchor': [a[1] for a in alts]})
     for off, text in sorted(ins, key=lambda t: -t[0]):
@@ -268,12 +271,14 @@ def parse_kv(line):
 
 
 def parse_hint_alts(spec):
+    """`a || b`: place at the first anchor found;  `a && b`: place at every anchor found (at least one)"""
     alts = []
-    for part in spec.split('||'):
+    every = '&&' in spec
+    for part in re.split(r'\|\||&&', spec):
         mt = re.match(r'\s*(before|after)\s+/((?:[^/\\]|\\.)*)/\s*(?:#(\d+))?\s*$', part)
         if not mt:
             raise ExtractError('bad HINT anchor: %r' % part)
-        alts.append((mt.group(1), mt.group(2), int(mt.group(3) or 1)))
+        alts.append((mt.group(1), mt.group(2), int(mt.group(3) or 1), every))
     return alts
 
 
@@ -433,7 +438,7 @@ def expand(template_path, repo_src_dir, canary=False):
         body = f.body
         body = re.sub(r'^\s*///.*\n', '', body, flags=re.M)
         body = rw.r3_from_mut(body)
-        body = rw.r6_question(body)
+        body = rw.r6_question(body, option=(kv.get('question') == 'option'))
         body = rw.r2_map(body)
         for sub in [x for x in kv.get('subst', '').split(';;') if x]:
             a, b = sub.split('=>')
@@ -442,11 +447,21 @@ def expand(template_path, repo_src_dir, canary=False):
                 rw.note('R8', 'substitute %s => %s' % (a, b))
             body = body.replace(a, b)
             ret = ret.replace(a, b)
+        if kv.get('drop_debug_asserts'):
+            def _da(mt):
+                rw.note('R10', mt.group(0))
+                return ''
+            body = re.sub(r'[ \t]*debug_assert\w*!\([^;]*\);[ \t]*\n', _da, body)
         if kv.get('array_iter'):
-            def _ai(mt):
-                rw.note('R9', mt.group(0))
-                return 'array_iter(%s)' % mt.group(1)
-            body = re.sub(r'\b(\w+)\.iter\(\)', _ai, body)
+            # R9: RECV.iter()  =>  array_iter(RECV)
+            while True:
+                mm = mask(body)
+                mt = re.search(r'\.\s*iter\s*\(\s*\)', mm)
+                if not mt:
+                    break
+                rs = receiver_start(mm, mt.start())
+                rw.note('R9', body[rs:mt.end()])
+                body = body[:rs] + 'array_iter(' + body[rs:mt.start()].rstrip() + ')' + body[mt.end():]
         nl = len(find_loops(body))
         loops = {k: v for k, v in loops.items() if not (k in optional_loops and k > nl)}
         body = apply_insertions(body, loops, [(a, t) for a, t in hints], fname, gen.notes)
